@@ -40,8 +40,10 @@ def lanes(tier):
     return [("plain", "plain", 16000), ("san", "san", 2000), ("vg-san", "vg", 16)]
 
 
-def blocks_of(start, cig):
-    """Aligned blocks (reference intervals) of an alignment: maximal runs of M/=/X/I/D; N and clips separate/are excluded."""
+def blocks_of(start, cig, lead_ins=True):
+    """Aligned blocks (reference intervals) of an alignment: maximal runs of M/=/X/I/D; N and clips separate/are excluded.
+    lead_ins: a block that begins with inserted bases is extended over the preceding base (it overlaps that anchor, but does
+    not contain it: such a block does not 'fully cover' a variant located there)."""
     out = []
     pos = start
     cur = None
@@ -54,7 +56,7 @@ def blocks_of(start, cig):
         elif op == 1:
             if cur is None:
                 # an alignment (part) beginning with inserted bases carries the insertion behind the preceding base
-                cur = [pos - 1, pos]
+                cur = [pos - 1, pos] if lead_ins else [pos, pos]
         elif op == 3:
             if cur is not None:
                 out.append(tuple(cur))
@@ -152,13 +154,14 @@ def run_one(rng, counters):
         for name, parts in frags.items():
             h = parts[0]["hap"]
             allblocks = [(pt, b) for pt in parts for b in blocks_of(pt["start"], pt["cigar"])]
+            strict = [b for pt in parts for b in blocks_of(pt["start"], pt["cigar"], lead_ins=False)]
             rec = got.get(name, {})
             for i, v in vis:
                 truth = sim.haps[c]["sampleA"][h][i]
                 npos = v.pos  # reads are keyed by the VCF position of the variant
-                lo_full = v.pos - 1
+                lo_full = v.pos  # the footprint starts at the VCF position (anchor base for indels): a read may begin exactly there
                 hi_full = v.end + v.shift + 1
-                full = any(b[0] <= lo_full and b[1] >= hi_full for _, b in allblocks)
+                full = any(b[0] <= lo_full and b[1] >= hi_full for b in strict)
                 overlap = [b for _, b in allblocks if b[0] < v.end + v.shift and b[1] > v.pos]
                 # "does not overlap": every aligned block is disjoint from the VCF footprint [pos, pos+len(REF));
                 # blocks that reach into the footprint or its shift range without covering it fully are "partial"
